@@ -64,10 +64,25 @@ ActionGraph(ns, q, g) ==
                        IF i = 1 THEN Applies(<<Ref("", "E")>>, <<Ref("", "E")>>, None) ELSE None)],
      <<>>)
 
+\* (2b) common types across namespaces: node 1 = T in the empty namespace, nodes 2, 3 = N::U, N::V.  A reference from
+\* inside N to T is unqualified (it falls through to the empty namespace), from T into N qualified, inside N unqualified
+\* (edge to U) or qualified (edge to V); an entity of N uses U, an action context uses T
+CrossNode == <<[ns |-> "", n |-> "T"], [ns |-> "N", n |-> "U"], [ns |-> "N", n |-> "V"]>>
+CrossRef(i, j) == IF i = 1 THEN TRef("N", CrossNode[j].n)
+                  ELSE IF j = 1 THEN TRef("", "T") ELSE IF j = 2 THEN TRef("", "U") ELSE TRef("N", "V")
+CrossType(i, g) == LET js == SetToSeqBy({ k \in N3 : <<i, k>> \in g }) IN
+                   IF js = <<>> THEN TLong
+                   ELSE TRec([m \in DOMAIN js |-> Attr(CrossNode[js[m]].n, IF m = 1 THEN TSet(CrossRef(i, js[m])) ELSE CrossRef(i, js[m]), m = 2)])
+CrossCommonGraph(g) ==
+  [ns |-> << Ns("", <<>>, <<>>, <<>>, <<[name |-> "T", annos |-> NoA, type |-> CrossType(1, g)]>>),
+             Ns("N", << Ent("E", <<>>, <<Attr("u", TRef("", "U"), FALSE)>>, None) >>, <<>>,
+                << Act("a", <<>>, Applies(<<Ref("", "E")>>, <<Ref("", "E")>>, TRec(<<Attr("t", TRef("", "T"), TRUE)>>))) >>,
+                <<[name |-> "U", annos |-> NoA, type |-> CrossType(2, g)], [name |-> "V", annos |-> NoA, type |-> CrossType(3, g)]>>) >>]
+
 GraphSchemas(g) ==
   << [ns |-> <<EntGraph("", "", g)>>], [ns |-> <<EntGraph("N", "N", g)>>],
      [ns |-> <<CommonGraph("", "", g)>>], [ns |-> <<CommonGraph("N", "N", g)>>],
-     [ns |-> <<ActionGraph("", "Action", g)>>], [ns |-> <<ActionGraph("N", "N::Action", g)>>] >>
+     [ns |-> <<ActionGraph("", "Action", g)>>], [ns |-> <<ActionGraph("N", "N::Action", g)>>], CrossCommonGraph(g) >>
 
 \* names: two namespaces + the empty one; X may be declared as entity (e), common type (c) or not at all (-) in "", in N;
 \* an attribute of N::E refers to X unqualified / qualified with N / with M (undeclared) / __cedar::Long / a built-in name
@@ -135,9 +150,10 @@ Total ==
   done => /\ \A k \in DOMAIN Cases : Resolve(Cases[k]).ok \in BOOLEAN
           /\ (kind = "graph" => /\ Resolve(Cases[1]).ok /\ Resolve(Cases[2]).ok
                                 /\ Resolve(Cases[3]).ok = ~HasCycle(g) /\ Resolve(Cases[4]).ok = ~HasCycle(g)
-                                /\ Resolve(Cases[5]).ok = ~HasCycle(g) /\ Resolve(Cases[6]).ok = ~HasCycle(g))
+                                /\ Resolve(Cases[5]).ok = ~HasCycle(g) /\ Resolve(Cases[6]).ok = ~HasCycle(g)
+                                /\ Resolve(Cases[7]).ok = ~HasCycle(g))
 
 Opts == [format |-> "TXT", charset |-> "UTF-8", openOptions |-> <<"WRITE", "CREATE", "APPEND">>]
 Emit == done => \A k \in DOMAIN Cases :
-          Serialize(ToJson([op |-> "schema", schema |-> Cases[k], probes |-> (kind # "graph" \/ k \in {1, 2, 6})]) \o "\n", "cases.ndjson", Opts).exitValue = 0
+          Serialize(ToJson([op |-> "schema", schema |-> Cases[k], probes |-> (kind # "graph" \/ k \in {1, 2, 6, 7})]) \o "\n", "cases.ndjson", Opts).exitValue = 0
 =============================================================================
